@@ -49,6 +49,8 @@ def dict_keys_of_returns(fn_node):
 
 
 def run(ctx: Ctx):
+    no_memoised_readers(ctx)
+    hparams_keep_policy(ctx)
     # ---------------- a: npz
     sv = ctx.repo.get_function(DU, "save_tensordict_to_npz")
     ld = ctx.repo.get_function(DU, "load_npz_to_tensordict")
@@ -136,8 +138,8 @@ def run(ctx: Ctx):
             rec = [a for a in ats if a.op == "recip"]
             if len(dem) == 1 and len(rec) == 1:
                 den = nf.strip(rec[0].args[0])
-                while den.op == "sub" and not vg.is_const(den.args[1], "capacity"):
-                    den = den.args[0]          # capacity[:, None]: a broadcasting view
+                while den.op == "sub" and not vg.is_const(den.args[1], "capacity") and nf._index_is_shape_only(den.args[1]):
+                    den = den.args[0]          # capacity[:, None]: a broadcasting view that keeps every instance's own capacity
                 ok = den.op == "sub" and vg.is_const(den.args[1], "capacity") and nf.norm(den.args[0]) is cb and frc.ret is base
     ctx.ob("C19.b", "CVRPEnv.load_data:normalisation", ok, cv.loc, "the loaded file's demand := demand / capacity, once, and that same TensorDict is returned (writer stores raw integer demands and the capacity)", construct="CVRPEnv.load_data:normalise")
     # MTVRP: the loader's `scale` option must rescale exactly the keys the generator's own `scale_demand` option rescales (siblings)
@@ -362,6 +364,53 @@ def run(ctx: Ctx):
         ok = strip_once and select and from_ckpt and before
         why = f"baseline.* entries of the checkpoint's state_dict are selected: {select and from_ckpt}; the 'baseline.' prefix is stripped once: {strip_once}; after setup() and post_setup_hook() created the modules that receive the state: {before}"
     ctx.ob("C19.e", "REINFORCE.load_from_checkpoint:prefix", ok, lc.loc, why, construct="REINFORCE.load_from_checkpoint:prefix")
+
+
+def no_memoised_readers(ctx: Ctx):
+    """C19.f what is read back is what is on disk NOW: no function of the persistence modules (npz helpers, FJSP / JSSP text
+    parser and writers, dataset generation) is memoised (functools.lru_cache / cache / a hand-made module-level dict keyed by
+    path): a second export to the same path must be seen by the next load."""
+    mods = ["rl4co/data/utils.py", "rl4co/envs/scheduling/fjsp/parser.py", "rl4co/data/generate_data.py", "rl4co/envs/scheduling/jssp/parser.py"]
+    n_fn = 0
+    for path in mods:
+        try:
+            mi = ctx.repo.module_by_path(path)
+        except AnalysisError:
+            continue
+        for n in ast.walk(mi.tree):
+            if isinstance(n, (ast.FunctionDef, ast.AsyncFunctionDef)):
+                n_fn += 1
+                cached = [ast.unparse(d) for d in n.decorator_list if any(k in ast.unparse(d) for k in ("cache", "memo"))]
+                if cached or n.name in ("file2lines", "read", "load_npz_to_tensordict", "parse_job_line"):
+                    ctx.ob("C19.f", f"{path.split('/')[-1]}:{n.name}:not-memoised", not cached, f"{path}:{n.lineno}",
+                           "reads the file on every call" if not cached else f"decorated with {cached}: a path that was read once is never read from disk again in this process",
+                           construct=f"{path}:{n.name}:memoised")
+    if n_fn < 8:
+        raise AnalysisError(f"persistence modules: only {n_fn} functions found")
+
+
+def hparams_keep_policy(ctx: Ctx):
+    """C19.e a checkpoint can rebuild the policy it was saved from: RL4COLitModule.__init__ records its constructor arguments
+    with save_hyperparameters and does not exclude `policy` (or `env`) -- load_from_checkpoint re-creates the module from these
+    arguments and then loads the weights; without the user's policy object a default-configured policy receives them."""
+    path = "rl4co/models/rl/common/base.py"
+    cls = ctx.repo.get_class(path, "RL4COLitModule")
+    fi = cls.methods.get("__init__")
+    ctx.fn(fi)
+    calls = [n for n in ast.walk(fi.node) if isinstance(n, ast.Call) and isinstance(n.func, ast.Attribute) and n.func.attr == "save_hyperparameters"]
+    if not calls:
+        ctx.ob("C19.e", "RL4COLitModule.__init__:save_hyperparameters", False, fi.loc, "save_hyperparameters is never called: load_from_checkpoint cannot re-create the module", construct="RL4COLitModule.__init__:hparams")
+        return
+    ign = []
+    for c in calls:
+        for k in c.keywords:
+            if k.arg == "ignore":
+                ign += [x.value for x in ast.walk(k.value) if isinstance(x, ast.Constant) and isinstance(x.value, str)]
+        ign += [a.value for a in c.args if isinstance(a, ast.Constant) and isinstance(a.value, str)] and []
+    bad = [x for x in ign if x in ("policy", "env")]
+    ctx.ob("C19.e", "RL4COLitModule.__init__:save_hyperparameters", not bad, fi.loc,
+           "constructor arguments incl. policy and env are recorded" if not bad else f"{bad} excluded from the recorded hyper-parameters: the restored module builds a default {bad[0]} and loads the saved weights into it",
+           construct="RL4COLitModule.__init__:hparams")
 
 
 def _copy_var(fn_node):
